@@ -66,18 +66,30 @@ theorem lrel_get {α β : Type} {P : α → β → Prop} {s : List α} {t : List
 section
 variable {root : Node}
 
-/-- The existing `_it`, or a new `LoaderIterator`. -/
-def itOr : Option (It root) → It root
+/-- The existing `_it`, or a new `LoaderIterator` over the root as it is. -/
+def itOr (base : Run root) : Option (It root) → It root
   | some it => it
-  | none => newIt root
+  | none => newIt root base
 
 theorem iterCore_eq (restart : Bool) (s : State root) :
     iterCore root restart s =
       match s.it, s.iterForSd with
       | some it, true => ⟨none, it, s.pending, false⟩
-      | oit, _ => startIt root restart s.pending s.iterForSd (itOr oit) := by
-  obtain ⟨it, pd, fl, hd⟩ := s
+      | oit, _ => startIt root restart s.pending s.iterForSd (itOr s.base oit) := by
+  obtain ⟨it, pd, fl, hd, bs⟩ := s
   cases it <;> cases fl <;> simp [iterCore, itOr]
+
+/-- The iterator on which `__iter__` applies a state loaded by `load_state_dict`. -/
+def loadIt (s : State root) : It root :=
+  match s.iterForSd, s.it with
+  | true, some it => newIt root it.r
+  | _, o => itOr s.base o
+
+theorem iterCore_load (restart : Bool) (s : State root) (sd : SD root) :
+    iterCore root restart (load root s sd) = startIt root restart (some sd) false (loadIt s) := by
+  obtain ⟨si, sp, sf, sh, sb⟩ := s
+  rw [iterCore_eq]
+  cases si <;> cases sf <;> rfl
 
 end
 
